@@ -193,3 +193,42 @@ def paths_must_pass(fn, start, through, ends, removed_edges=()):
         return True
     r = reach_from(fn, start, avoid=through, removed_edges=removed_edges)
     return not (r & set(ends))
+
+
+
+def reach_with_bool_phis(fn, removed_edges, rounds=8):
+    """blocks reachable from the entry without `removed_edges`, to a fixpoint over `matches!`-style booleans: a switch
+    on a bool local whose every definition is a constant loses its true edge once all its `true` assignments are
+    unreachable (and its false edge once all `false` assignments are).  Returns (reachable, removed)."""
+    from .facts import op_place, const_int
+    from . import flow
+    removed = set(removed_edges)
+    for _ in range(rounds):
+        reach = reach_from(fn, 0, removed_edges=removed)
+        grew = False
+        for sb in sorted(fn.reachable):
+            t = fn.term(sb)
+            if t["k"] != "switch" or t.get("ty") != "bool":
+                continue
+            p = op_place(t["discr"])
+            neg = False
+            if p is not None and "p" not in p:
+                ds = flow.whole_defs(fn, p["l"])
+                if len(ds) == 1 and ds[0].kind == "stmt" and ds[0].rv["k"] == "un" and ds[0].rv["op"] == "Not":
+                    p = op_place(ds[0].rv["a"])
+                    neg = True
+            if p is None or "p" in p:
+                continue
+            defs = flow.whole_defs(fn, p["l"])
+            if not defs or not all(d.kind == "stmt" and d.rv["k"] == "use" and const_int(d.rv["op"]) in (0, 1) for d in defs):
+                continue
+            for val in (1, 0):
+                sites = [d.bb for d in defs if const_int(d.rv["op"]) == val]
+                if sites and all(b not in reach for b in sites):
+                    for e in bool_edges(fn, sb, bool(val) != neg):
+                        if e not in removed:
+                            removed.add(e)
+                            grew = True
+        if not grew:
+            break
+    return reach_from(fn, 0, removed_edges=removed), removed
